@@ -72,6 +72,11 @@ func KeyUnwrap(block cipher.Block, ciphertext []byte) ([]byte, error) {
 		return nil, errors.New("square/go-jose: key wrap input must be 8 byte blocks")
 	}
 
+	// The wrapped key is the 8 bytes integrity check value and at least one block.
+	if len(ciphertext) < 16 {
+		return nil, errors.New("square/go-jose: key wrap input too short")
+	}
+
 	n := (len(ciphertext) / 8) - 1
 	r := make([][]byte, n)
 
